@@ -1,5 +1,6 @@
 import J5V.Compile.ConvertProofs
 import J5V.Compile.AppendDecl
+import J5V.Compile.Congr
 /-!
 # C13 — appending declarations never changes existing wire identities
 
@@ -19,6 +20,20 @@ theorem C13_append_field (c : Ctx) (np : List Str) (isOneof : Bool) (virt : List
     (declMsg c np isOneof virt name props nested psm).fields <+:
       (declMsg c np isOneof virt name (props ++ extra) nested psm).fields := by
   simp only [declMsg, mkMsg, MsgSkel.fields, ← List.append_assoc, bProps_append_flds]
+  exact List.prefix_append _ _
+
+/-- **Append a field, changed resolver.** An edit also changes the package's export table (a new
+inline type is a new export), hence the conversion context. The existing fields are still exactly
+preserved whenever the new context resolves the references of the *existing* properties as before
+(`AgreeOn` — true when the names added by the edit are fresh). -/
+theorem C13_append_field_ctx (c c' : Ctx) (np : List Str) (isOneof : Bool) (virt : List Property)
+    (name : Str) (props extra : List Property) (nested nested' : List Nested) (psm : Option Psm)
+    (h : AgreeOn c c' (refsProps (virt ++ props))) :
+    (declMsg c np isOneof virt name props nested psm).fields <+:
+      (declMsg c' np isOneof virt name (props ++ extra) nested' psm).fields := by
+  simp only [declMsg, mkMsg, MsgSkel.fields]
+  rw [bProps_congr c c' (np ++ [name]) isOneof 1 (virt ++ props) h, ← List.append_assoc,
+    bProps_append_flds c' _ _ _ (virt ++ props) extra]
   exact List.prefix_append _ _
 
 /-- …and the types nested under the message that come from its properties (inline objects, oneofs
